@@ -3,7 +3,7 @@ From StgV Require Import Model.Chars Model.Name Model.NameSpec.
 From Coq Require Import Lia ZifyBool.
 
 Ltac unfold_chars :=
-  unfold okchar, safe_out, git_bad_char, pn_break_char, forbidden_char, is_dash_or_dot, is_dot,
+  unfold safe_out, okchar, git_bad_char, pn_break_char, forbidden_char, is_dash_or_dot, is_dot,
     is_ascii_alnum, is_ascii_hexdigit, is_ascii_digit, is_ascii_upper, is_ascii_lower,
     is_ascii, is_whitespace, is_control, is_ascii_whitespace,
     ch_nl, ch_cr, ch_space, ch_dash, ch_dot, ch_slash, ch_colon, ch_qmark, ch_at, ch_lbrack,
